@@ -1,8 +1,32 @@
 """Run the extracted model (OCaml driver) and, for cross-checking, the same cases inside Coq (vm_compute)."""
-import os, subprocess, tempfile, shutil
+import os, subprocess, tempfile, shutil, json
 from . import VERIF, sexp
 
 DRIVER = os.path.join(VERIF, "build", "ocaml", "driver")
+
+
+def canon_ty(e):
+    """canonical form of a type encoding: members of unions / intersections and the values of a Literal sorted and
+    deduplicated (the library identifies them up to order since the repair of the reorder defect); applied to every
+    type encoding sent to the model, so that equal library types are Leibniz-equal model terms"""
+    if not isinstance(e, list) or not e or not isinstance(e[0], int):
+        return e
+    t = e[0]
+    if t in (2, 3):
+        ms = sorted({json.dumps(canon_ty(x)) for x in e[1:]})
+        return [t] + [json.loads(m) for m in ms]
+    if t == 8:
+        vs = sorted({json.dumps(v) for v in e[2:]})
+        return [8, canon_ty(e[1])] + [json.loads(v) for v in vs]
+    if t == 1:
+        return [1, e[1]] + [canon_ty(x) for x in e[2:]]
+    if t == 9:
+        return [9, e[1], canon_ty(e[2])] + e[3:]
+    if t == 10:
+        return [10, e[1], canon_ty(e[2])] + [canon_ty(x) for x in e[3:]]
+    if t == 11:
+        return [11, canon_ty(e[1])] + [canon_ty(x) for x in e[2:]]
+    return e
 
 
 def run_cases(cases, chunk=None, jobs=8):
